@@ -8,6 +8,8 @@ vars == <<grp, gset, periodic, NKdiv, NKFFT, NK, rec, res, ambiguous>>
 (* cfg files cannot hold tuples: the model's vector sets are chosen by  VECTORS <- VecsA  etc. *)
 VecsA == {<<4, 4, 1>>, <<4, 2, 2>>, <<2, 4, 2>>, <<6, 3, 1>>, <<3, 3, 2>>, <<5, 5, 3>>}
 VecsB == VecsA \cup {<<8, 8, 1>>, <<2, 2, 4>>, <<6, 6, 4>>, <<7, 7, 2>>, <<12, 12, 1>>, <<9, 9, 9>>}
+VecsQ == {<<4, 4, 1>>, <<4, 2, 2>>, <<6, 3, 1>>, <<5, 5, 2>>}
+RecsQ == {<<1, 1, 1>>, <<2, 2, 1>>, <<3, 3, 3>>}
 RecsA == {<<1, 1, 1>>, <<2, 2, 1>>, <<3, 3, 3>>, <<3, 1, 1>>, <<1, 2, 3>>}
 RecsB == RecsA \cup {<<2, 2, 2>>, <<4, 4, 2>>, <<5, 5, 5>>, <<2, 3, 1>>}
 Args == {None} \cup {<<a, a, a>> : a \in SCALARS} \cup VECTORS
@@ -17,7 +19,7 @@ Init == /\ grp \in GROUPS
         /\ periodic \in {<<TRUE, TRUE, TRUE>>, <<TRUE, TRUE, FALSE>>, <<TRUE, FALSE, FALSE>>}
         /\ NKdiv \in Args /\ NKFFT \in Args /\ NK \in Args
         /\ rec \in (IF UsesAuto(NKdiv, NKFFT, NK) /\ SymmetricGrid(NK, gset) /\ (NKdiv = None \/ SymmetricGrid(NKdiv, gset))
-                    THEN {r \in RECS : AutoPossible(r, gset)} ELSE {<<1, 1, 1>>})
+                    THEN RECS ELSE {<<1, 1, 1>>})
         /\ res = DetermineNK(periodic, NKdiv, NKFFT, NK, rec, gset)
         /\ ambiguous = (res.kind = "auto" /\ AutoTieAmbiguous(NK, rec, gset))
 Next == UNCHANGED vars
